@@ -2196,12 +2196,25 @@ class ItemSpaceImpl(DynamicSpaceImpl):
         else:
             raise ValueError("invalid name")
 
-        DynamicSpaceImpl.__init__(
-            self, parent, name, parent._named_itemspaces, base, refs, arguments, cache
-        )
-        self._bind_args(self.arguments)
-        self._init_child_spaces(self)
-        self._init_dynbaserefs()
+        try:
+            DynamicSpaceImpl.__init__(
+                self, parent, name, parent._named_itemspaces,
+                base, refs, arguments, cache
+            )
+            self._bind_args(self.arguments)
+            self._init_child_spaces(self)
+            self._init_dynbaserefs()
+        except BaseException:
+            # Do not leave a half-built ItemSpace registered
+            # with its base and its parent
+            try:
+                self.on_delete()
+            except Exception:
+                if self in base._dynamic_subs:
+                    base._dynamic_subs.remove(self)
+            if name in parent._named_itemspaces:
+                parent._named_itemspaces.del_item(name)
+            raise
 
     def _init_root(self, parent):
         self.rootspace = self
